@@ -1211,8 +1211,10 @@ def cases(tier):
         out.append(("case_dataset", {"H": 2, "W": 3, "scales": [0.25, 0.5]}, {"split": 4}))
         out.append(("case_dataset", {"H": 2, "W": 2, "scales": [0.5, 2.0]}, {"split": 2}))
     # border relocation (BorderRelocator.relocated_grid_from / relocated_mesh_grid_from) of grids translated with the mask
-    for n, name in enumerate(["disc7", "ring5", "cross7", "full3x3"] + ([] if quick else ["blob6x7", "edge4x6", "annulus9", "diag7"])):
-        out.append(("case_relocate", {"name": name, "scales": SCALES[n % len(SCALES)], "sub": [2, 1, "mixed", 2][n % 4], "stretch": [1.5, 2.0, 1.25][n % 3]}))
+    # (quick: small grids only - a fault that measures radii from the absolute (0,0) puts one sqrt term per grid point into the branch conditions)
+    for n, (name, sub) in enumerate([("full3x3", 1), ("single5x4", 2), ("row3x7", 1)] +
+                                    ([] if quick else [("disc7", 2), ("ring5", 1), ("cross7", "mixed"), ("blob6x7", 2), ("edge4x6", 1), ("annulus9", 2), ("diag7", 2)])):
+        out.append(("case_relocate", {"name": name, "scales": SCALES[n % len(SCALES)], "sub": sub, "stretch": [1.5, 2.0, 1.25][n % 3]}))
     out.append(("case_relocate", {"H": 2, "W": 2, "scales": [1.0, 1.0]}))
     if not quick:
         out.append(("case_relocate", {"H": 2, "W": 3, "scales": [0.5, 2.0], "stretch": 2.0}, {"split": 2}))
